@@ -3,6 +3,7 @@
 package stream
 
 import (
+	"container/heap"
 	"context"
 	"time"
 
@@ -16,7 +17,7 @@ func init() {
 	vRegister("vC45_fusedStep", vC45_fusedStep)
 	vRegister("vC45_batchStep", vC45_batchStep)
 	vRegister("vC45_batchHistory", vC45_batchHistory)
-	vRegister("vC45_parallel", vC45_parallel)
+	vRegister("vC45_parallelStep", vC45_parallelStep)
 }
 
 // ---- flowActor: one handler step from an arbitrary state --------------------------------------------------
@@ -621,7 +622,8 @@ func vC45_batchStep() {
 // stage requested, completion last) against the list semantics of Batch(m): the emitted batches, concatenated, are the
 // input; every batch has 1..m elements; at completion nothing is left behind.
 func vC45_batchHistory() {
-	const K = 5
+	const maxK = 5
+	K := vCase("steps")
 	id := vNondetInt64("initialDemand")
 	rt := vNondetInt64("refillThreshold")
 	m := vNondetInt("maxSize")
@@ -633,8 +635,8 @@ func vC45_batchHistory() {
 	self, up, down := actor.VNewSysPID(), actor.VNewPID(), actor.VNewPID()
 	actor.VReset()
 	a.Receive(actor.VCtx(self, &stageWire{subID: "s", upstream: up, downstream: down}))
-	var in [K]int  // elements delivered to the stage
-	var out [K]int // elements the stage emitted (batches concatenated)
+	var in [maxK]int  // elements delivered to the stage
+	var out [maxK]int // elements the stage emitted (batches concatenated)
 	nin, nout := 0, 0
 	credit := int64(0) // requested by the stage and not yet delivered
 	finished := false
@@ -667,8 +669,8 @@ func vC45_batchHistory() {
 			batch, ok := o.vals[0].([]int)
 			vAssert(ok && len(batch) >= 1, "history: a batch is a non-empty []T")
 			vAssert(len(batch) <= m, "history: a batch has at most maxSize elements")
-			for i := 0; i < K; i++ {
-				if i < len(batch) && nout < K {
+			for i := 0; i < maxK; i++ {
+				if i < len(batch) && nout < maxK {
 					out[nout] = batch[i]
 					nout++
 				}
@@ -678,7 +680,7 @@ func vC45_batchHistory() {
 			}
 		}
 		vAssert(nout <= nin, "history: nothing is emitted that was not received")
-		for i := 0; i < K; i++ {
+		for i := 0; i < maxK; i++ {
 			if i < nout {
 				vAssert(out[i] == in[i], "history: the batches, concatenated, are a prefix of the input in order")
 			}
@@ -697,11 +699,11 @@ func vC45_batchHistory() {
 	vCover("end")
 }
 
-// ---- ParallelMap / OrderedParallelMap (2 workers): every run of the stage from wiring to completion ----------
-// The harness plays the upstream (<= 3 elements, delivered only against the stage's requests, then completion) and the two
-// worker actors' mailboxes; the solver chooses the order of all events (in particular in which order the workers reply).
-func vC45_parallel() {
-	const K = 7 // 3 elements + completion + 3 worker replies
+// ---- ParallelMap / OrderedParallelMap (2 workers): one step from an arbitrary state ---------------------------
+// State of the stage between two messages: n elements were dispatched so far (inputSeqNo), the results of e of them were
+// emitted (ordered: nextEmit = e, exactly the results 1..e), h <= 2 later results wait in the resequencing heap (built with
+// the real heap.Push), the remaining ones are with the workers (inFlight).
+func vC45_parallelStep() {
 	ordered := vCase("ordered") == 1
 	vC45_c = vNondetInt("c")
 	fn := func(x int) int { return x + vC45_c }
@@ -719,128 +721,168 @@ func vC45_parallel() {
 	o := vS_collect(up, down, "s")
 	vAssert(len(actor.VSpawnedFns) == 2 && o.reqs == 1 && o.reqN == 2 && len(actor.VOut) == 1 && actor.VShutdowns == 0, "a wired parallel stage spawns its workers and requests one element per worker")
 	w0, w1 := actor.VSpawnedPIDs[0], actor.VSpawnedPIDs[1]
-	total := vNondetInt("len")
-	vAssume(total >= 0 && total <= 3)
-	var in [3]int
-	for i := 0; i < 3; i++ {
-		in[i] = vNondetInt("in")
+
+	// the real worker function: replies once, to the stage, with fn(value) under the task's sequence number
+	tv, ts := vNondetInt("taskValue"), vNondetUint64("taskSeq")
+	actor.VReset()
+	_ = actor.VSpawnedFns[vChoose("worker", 2)](context.Background(), &workerTask{seqNo: ts, value: tv, replyTo: self})
+	vAssert(len(actor.VOut) == 1 && actor.VOut[0].To == self, "a worker replies exactly once, to the stage")
+	if len(actor.VOut) == 1 {
+		r, ok := actor.VOut[0].Msg.(*parallelResult)
+		vAssert(ok && r.seqNo == ts && r.value == any(tv+vC45_c) && r.err == nil, "a worker's reply carries fn(value) under the task's sequence number")
 	}
-	var wq [2][3]*workerTask
-	var wh, wt [2]int
-	credit := int64(2)
-	delivered, nout, completes := 0, 0, 0
-	completed, stopped, outOfOrder := false, false, false
-	replies := 0
-	var outv [4]int
-	for k := 0; k < K; k++ {
-		if stopped {
-			break
-		}
-		canElem := delivered < total && credit > 0
-		canComplete := delivered == total && !completed
-		vAssert(canElem || canComplete || wh[0] < wt[0] || wh[1] < wt[1], "a running parallel stage is never stuck: upstream can deliver or a worker has a task")
-		ev := vChoose("event", 4)
-		actor.VReset()
-		switch ev {
-		case 0:
-			vAssume(canElem)
-			a.Receive(actor.VCtx(self, &streamElement{subID: "s", value: in[delivered], seqNo: uint64(delivered + 1)}))
-			delivered++
-			credit--
-		case 1:
-			vAssume(canComplete)
-			a.Receive(actor.VCtx(self, &streamComplete{subID: "s"}))
-			completed = true
-		default:
-			j := ev - 2
-			vAssume(wh[j] < wt[j])
-			task := wq[j][wh[j]]
-			wh[j]++
-			if task != nil && task.seqNo != uint64(replies+1) {
-				outOfOrder = true
-			}
-			replies++
-			_ = actor.VSpawnedFns[j](context.Background(), task) // the real worker function
-			vAssert(len(actor.VOut) == 1 && actor.VOut[0].To == self, "a worker replies exactly once, to the stage")
-			var res any
-			if len(actor.VOut) == 1 {
-				res = actor.VOut[0].Msg
-			}
-			actor.VReset()
-			a.Receive(actor.VCtx(self, res))
-			vCover("worker-reply")
-		}
-		vAssert(actor.VUnhandled == 0, "the stage handles every protocol message")
-		for i := 0; i < len(actor.VOut) && i < 6; i++ {
-			sm := actor.VOut[i]
-			switch m := sm.Msg.(type) {
-			case *workerTask:
-				j := -1
-				if sm.To == w0 {
-					j = 0
-				} else if sm.To == w1 {
-					j = 1
-				}
-				vAssert(j >= 0 && wt[0]-wh[0]+wt[1]-wh[1] < 2, "tasks go to the stage's own workers, at most one per worker in flight")
-				if j >= 0 && wt[j] < 3 {
-					wq[j][wt[j]] = m
-					wt[j]++
-				}
-			case *streamElement:
-				vAssert(sm.To == down && completes == 0 && nout < 3, "results go downstream, before the completion")
-				v, ok := m.value.(int)
-				vAssert(ok && m.seqNo == uint64(nout+1), "results are ints numbered consecutively")
-				if nout < 3 {
-					outv[nout] = v
-					nout++
-				}
-			case *streamComplete:
-				vAssert(sm.To == down, "completion goes downstream")
-				completes++
-			case *streamRequest:
-				vAssert(sm.To == up && m.n >= 1, "requests go upstream")
-				credit += m.n
-			default:
-				vAssert(false, "a parallel stage sends nothing else in a failure-free run")
-			}
-		}
-		if actor.VShutdowns > 0 {
-			stopped = true
-		}
-		vAssert(stopped == (completes > 0) && completes <= 1, "the stage stops exactly when it has completed downstream, once")
-	}
-	vAssert(stopped, "every run ends: after all elements, the completion and all worker replies the stage has completed")
-	vAssert(completed && nout == total && delivered == total, "at completion every input element has produced exactly one output")
+
+	// arbitrary state
+	e := vNondetUint64("emitted")
+	vAssume(e < 1<<40)
+	h := 0
+	var hs [2]uint64 // sequence numbers waiting in the heap
+	var hv [2]int
 	if ordered {
-		for i := 0; i < 3; i++ {
-			if i < total && i < nout {
-				vAssert(outv[i] == in[i]+vC45_c, "OrderedParallelMap: outputs are fn(input) in input order whatever the order of the worker replies")
+		h = vChoose("waiting", 3)
+		for i := 0; i < 2; i++ {
+			if i < h {
+				hs[i], hv[i] = vNondetUint64("heapSeq"), vNondetInt("heapVal")
+				vAssume(hs[i] > e+1 && hs[i] <= e+4) // e+1 itself is never waiting: it would have been emitted
+				heapPush(a, hs[i], hv[i])
 			}
 		}
-	} else {
-		for i := 0; i < 3; i++ {
-			if i < total {
-				ci, co := 0, 0
-				for j := 0; j < 3; j++ {
-					if j < total && in[j] == in[i] {
-						ci++
-					}
-					if j < nout && outv[j] == in[i]+vC45_c {
-						co++
-					}
+		vAssume(h < 2 || hs[0] != hs[1])
+	}
+	f := vNondetInt64("inFlight")
+	vAssume(f >= 0 && f <= 2)
+	n := e + uint64(h) + uint64(f)
+	for i := 0; i < 2; i++ {
+		if i < h {
+			vAssume(hs[i] <= n)
+		}
+	}
+	done := vNondetBool("upstreamDone")
+	vAssume(!(done && f == 0)) // a stage whose upstream is done and whose workers are idle has completed
+	a.inputSeqNo, a.nextEmit, a.inFlight, a.upstreamDone = n, e, f, done
+	a.outSeqNo = e
+	a.nextWorker = vChoose("nextWorker", 2)
+	nw := a.nextWorker
+
+	op := vChoose("msg", 5)
+	x := vNondetInt("x")
+	rs, rv := vNondetUint64("resultSeq"), vNondetInt("resultVal")
+	var msg any
+	switch op {
+	case 0:
+		vAssume(!done && f <= 1) // at most one element per idle worker is ever requested
+		msg = &streamElement{subID: "s", value: x, seqNo: 9}
+	case 1:
+		vAssume(f >= 1 && rs > e && rs <= n && (h < 1 || rs != hs[0]) && (h < 2 || rs != hs[1])) // a result that is still outstanding
+		msg = &parallelResult{seqNo: rs, value: rv}
+	case 2:
+		vAssume(!done)
+		msg = &streamComplete{subID: "s"}
+	case 3:
+		msg = &streamError{subID: "s", err: vS_errBoom}
+	default:
+		msg = &streamCancel{subID: "s"}
+	}
+	actor.VReset()
+	a.Receive(actor.VCtx(self, msg))
+	o = vS_collect(up, down, "s")
+	stopped := actor.VShutdowns > 0
+	ntask := 0
+	for i := 0; i < len(actor.VOut) && i < 6; i++ {
+		if t, ok := actor.VOut[i].Msg.(*workerTask); ok {
+			ntask++
+			want := w0
+			if nw == 1 {
+				want = w1
+			}
+			vAssert(op == 0 && actor.VOut[i].To == want && t.seqNo == n+1 && t.value == any(x) && t.replyTo == self, "an element is handed to the next worker (round robin) under the next input sequence number")
+		}
+	}
+	vAssert(o.other == ntask && actor.VUnhandled == 0 && !o.badSub && !o.lateElem, "a parallel stage only sends tasks to its workers, results/termination downstream, request/cancel upstream")
+	switch op {
+	case 0:
+		vAssert(ntask == 1 && o.n == 0 && !stopped && o.reqs == 0 && o.completes+o.errs == 0, "an element becomes exactly one task")
+		vAssert(a.inFlight == f+1 && a.inputSeqNo == n+1 && a.nextWorker == 1-nw, "dispatch bookkeeping")
+	case 1:
+		vAssert(ntask == 0 && o.errs == 0 && o.cancels == 0, "a result produces no task and no failure")
+		want := 1
+		if ordered {
+			// the run of consecutive sequence numbers starting at e+1 among {rs} + heap
+			want = 0
+			cur := e + 1
+			for r := 0; r < 3; r++ {
+				if rs == cur || (h >= 1 && hs[0] == cur) || (h >= 2 && hs[1] == cur) {
+					want++
+					cur++
 				}
-				vAssert(ci == co, "ParallelMap: the outputs are the multiset of fn(input)")
+			}
+			if rs != e+1 {
+				want = 0
 			}
 		}
-	}
-	if !ordered && total == 3 && (outv[0] != in[0]+vC45_c) {
-		vCover("reordered-output")
-	}
-	if outOfOrder {
-		vCover("replies-out-of-order")
-	}
-	if total == 3 {
-		vCover("three-elements")
+		vAssert(o.n == want, "OrderedParallelMap emits exactly the results that are next in input order; ParallelMap emits each result at once")
+		for i := 0; i < 3; i++ {
+			if i < o.n && i < want {
+				vAssert(o.seqs[i] == e+uint64(i)+1, "outputs are numbered consecutively")
+				if ordered {
+					s := e + uint64(i) + 1
+					wv := rv
+					if h >= 1 && hs[0] == s {
+						wv = hv[0]
+					}
+					if h >= 2 && hs[1] == s {
+						wv = hv[1]
+					}
+					vAssert(o.vals[i] == any(wv), "the i-th output is the result computed for the i-th input")
+				} else {
+					vAssert(o.vals[i] == any(rv), "the result is emitted unchanged")
+				}
+			}
+		}
+		if ordered && want >= 2 {
+			vCover("resequenced-run")
+		}
+		if ordered && want == 0 {
+			vCover("held-back")
+		}
+		if done && f == 1 {
+			vAssert(o.completes == 1 && stopped && o.reqs == 0, "after upstream completed, the last result completes the stage (once)")
+			if ordered {
+				vAssert(want == h+1 && len(a.pending) == 0, "at completion nothing is left in the resequencing heap (every result was emitted)")
+			}
+			vCover("completes-on-last-result")
+		} else {
+			vAssert(o.completes == 0 && !stopped, "no completion while upstream is live or results are outstanding")
+			wantPending := 0
+			if ordered {
+				wantPending = h + 1 - want
+			}
+			vAssert(a.inFlight == f-1 && len(a.pending) == wantPending, "bookkeeping after a result")
+			if !done {
+				vAssert(o.reqs == 1 && o.reqN == 1, "each result frees a worker: one more element is requested")
+			} else {
+				vAssert(o.reqs == 0, "nothing is requested after upstream completed")
+			}
+			if ordered {
+				vAssert(a.nextEmit == e+uint64(want), "nextEmit advances by the emitted run")
+			}
+		}
+	case 2:
+		vAssert(ntask == 0 && o.n == 0 && o.errs == 0, "completion produces no element")
+		if f == 0 {
+			vAssert(o.completes == 1 && stopped, "with idle workers the completion is forwarded at once")
+		} else {
+			vAssert(o.completes == 0 && !stopped && a.upstreamDone, "with busy workers the completion waits for their results")
+			vCover("completion-deferred")
+		}
+	case 3:
+		vAssert(o.errs == 1 && o.err == vS_errBoom && o.completes == 0 && stopped, "an upstream error is forwarded and the stage stops")
+	default:
+		vAssert(o.cancels == 1 && stopped, "a cancel is forwarded upstream and the stage stops")
 	}
 	vCover("end")
+}
+
+func heapPush(a *parallelMapActor[int, int], seq uint64, v int) {
+	heap.Push(&a.pending, parallelResult{seqNo: seq, value: v})
 }
